@@ -68,6 +68,84 @@ fn check_roundtrip(sb: AccountStatus, st: AccountStatus, flag_t: bool, exo: bool
     kani::cover!(true);
 }
 
+/// The SLOT part of the round trip, on CONCRETE slot values (a std HashMap holding a symbolic value is not affordable, see
+/// common.rs): one concrete key K1, the bundle account holds it as `b_slot` = (pre-bundle value, present value) or not at
+/// all, the transition writes it as `t_slot` = (value before the transition, value after) or not at all; statuses concrete;
+/// infos symbolic (they do not live in a map).  This is ONE execution of the storage code per instance, checked against the
+/// property text: the revert lists for every slot its value before the group (`Some(v)`), `Destroyed` only for a slot that
+/// was not held before, a slot not listed reads as unchanged (not wiped) / must not have been held (wiped); reverting
+/// restores every present value the bundle account held.
+fn check_slots(sb: AccountStatus, st: AccountStatus, flag_t: bool, b_slot: Option<(u64, u64)>, t_slot: Option<(u64, u64)>) {
+    let u = |x: u64| U256::from_limbs([x, 0, 0, 0]);
+    let (exb, ext) = (exists(sb), exists(st));
+    let mut info_b = info_if(exb);
+    if let Some(i) = info_b.as_mut() { i.nonce = 1; }
+    let mut info_t = info_if(ext);
+    if let Some(i) = info_t.as_mut() { i.nonce = 2; }
+    let mut storage_b: StorageWithOriginalValues = HashMap::default();
+    if let Some((o, p)) = b_slot { storage_b.insert(K1, StorageSlot { previous_or_original_value: u(o), present_value: u(p) }); }
+    let mut storage_t: StorageWithOriginalValues = HashMap::default();
+    if let Some((o, p)) = t_slot { storage_t.insert(K1, StorageSlot { previous_or_original_value: u(o), present_value: u(p) }); }
+    let mut b = BundleAccount { info: info_b.clone(), original_info: info_if(true), storage: storage_b, status: sb };
+    let t = TransitionAccount { info: info_t.clone(), status: st, previous_info: info_b.clone(), previous_status: sb, storage: storage_t, storage_was_destroyed: flag_t };
+    let r = b.update_and_create_revert(t);
+    assert!(r.is_some());
+    let rev = r.unwrap();
+    // value of the slot before the group: what the bundle account held, else what the transition started from
+    let before: Option<u64> = match (b_slot, t_slot) { (Some((_, bp)), _) => Some(bp), (None, Some((to, _))) => Some(to), _ => None };
+    match rev.storage.get(&K1) {
+        Some(RevertToSlot::Some(v)) => assert!(before.is_some() && u_eq(*v, u(before.unwrap()))),
+        Some(RevertToSlot::Destroyed) => assert!(b_slot.is_none()),
+        None => {
+            if rev.wipe_storage {
+                assert!(b_slot.is_none());
+            } else if let Some((to, tp)) = t_slot {
+                assert!(to == tp);
+            }
+        }
+    }
+    // a value the bundle account held must be recoverable: listed, unless nothing happened to it
+    if let Some((_, bp)) = b_slot {
+        let touched = destroyed(st) && !destroyed(sb) || flag_t || t_slot.map(|(_, tp)| tp != bp).unwrap_or(false);
+        assert!(!touched || rev.storage.get(&K1).is_some());
+    }
+    let _ = b.revert(rev);
+    assert!(st_eq(b.status, sb));
+    assert!(oi_eq(&b.info, &info_b));
+    let after = slot_of(&b.storage, 0);
+    match (b_slot, t_slot) {
+        (Some((_, bp)), _) => assert!(after.is_some() && u_eq(after.unwrap().1, u(bp))),
+        (None, Some((to, _))) => assert!(after.is_none() || u_eq(after.unwrap().1, u(to))),
+        _ => assert!(after.is_none()),
+    }
+    kani::cover!(true);
+}
+
+macro_rules! slots {
+    ($name:ident, $sb:expr, $st:expr, $flag:expr, $b:expr, $t:expr) => {
+        #[kani::proof]
+        #[kani::unwind(6)]
+        #[kani::stub(std::hash::RandomState::new, fixed_random_state)]
+        #[kani::stub(revm_interpreter::primitives::Bytecode::new, bytecode_new_stub)]
+        fn $name() {
+            check_slots($sb, $st, $flag, $b, $t)
+        }
+    };
+}
+// names: slots_<status before>_<status after>[_w]_<b: the bundle account holds K1><t: the transition writes K1>
+slots!(slots_c_dc_w_bt, Changed, DestroyedChanged, true, Some((1, 2)), Some((0, 5)));
+slots!(slots_c_c_bt, Changed, Changed, false, Some((1, 2)), Some((2, 3)));
+slots!(slots_l_dc_w_bt, Loaded, DestroyedChanged, true, Some((1, 2)), Some((0, 5)));
+slots!(slots_imc_dc_w_bt, InMemoryChange, DestroyedChanged, true, Some((0, 2)), Some((0, 5)));
+slots!(slots_c_d_w_b, Changed, Destroyed, true, Some((1, 2)), None);
+slots!(slots_l_c_t, Loaded, Changed, false, None, Some((1, 3)));
+slots!(slots_c_c_t, Changed, Changed, false, None, Some((1, 3)));
+slots!(slots_dc_dc_w_bt, DestroyedChanged, DestroyedChanged, true, Some((0, 2)), Some((0, 5)));
+slots!(slots_dc_dc_bt, DestroyedChanged, DestroyedChanged, false, Some((0, 2)), Some((2, 5)));
+slots!(slots_dc_da_w_b, DestroyedChanged, DestroyedAgain, true, Some((0, 2)), None);
+slots!(slots_d_dc_t, Destroyed, DestroyedChanged, false, None, Some((0, 5)));
+slots!(slots_da_dc_t, DestroyedAgain, DestroyedChanged, false, None, Some((0, 5)));
+
 /// `BundleAccount::revert` alone, on a hand-built revert (so that the slot part is reachable at a bearable cost):
 /// kind 0 = DoNothing, 1 = RevertTo(info), 2 = DeleteIt on an account that was absent before the bundle,
 /// 3 = DeleteIt on an account that existed before the bundle; `pr[i]`: 0 = key i not listed, 1 = Some(v), 2 = Destroyed.
